@@ -155,6 +155,40 @@ pub fn check_edits(ctx: &mut Ctx, mode: Mode, p: &Pos, b: &Board, n_squares: usi
             };
             ctx.class("edit:remove-rights");
             compare(ctx, mode, &r, &np, how, &case)?;
+            // ... and a right (or both) added back afterwards: two edits in a row
+            for (ak, aq) in [(rk, rq), (true, true), (true, false), (false, true)] {
+                if (ak && !backed[ki]) || (aq && !backed[qi]) {
+                    continue;
+                }
+                if !(ak && !np.castle[ki]) && !(aq && !np.castle[qi]) {
+                    continue;
+                }
+                let mut np2 = np.clone();
+                if ak {
+                    np2.castle[ki] = true;
+                }
+                if aq {
+                    np2.castle[qi] = true;
+                }
+                let mut r2 = r;
+                let how2 = if form == 1 {
+                    r2.add_castle_rights(lc, cr(ak, aq));
+                    "remove_*_castle_rights, then add_castle_rights"
+                } else if c == p.stm {
+                    r2.add_my_castle_rights(cr(ak, aq));
+                    "remove_castle_rights, then add_my_castle_rights"
+                } else {
+                    r2.add_their_castle_rights(cr(ak, aq));
+                    "remove_castle_rights, then add_their_castle_rights"
+                };
+                let case2 = || {
+                    let mut cj = case0();
+                    cj["edit"] = json!(format!("{} ({:?}: removed k={} q={}, added k={} q={})", how2, c, rk, rq, ak, aq));
+                    cj
+                };
+                ctx.class("edit:remove-then-add-rights");
+                compare(ctx, mode, &r2, &np2, how2, &case2)?;
+            }
         }
         // add (only rights backed by king and rook at home)
         for (ak, aq) in [(true, false), (false, true), (true, true)] {
